@@ -298,4 +298,149 @@ theorem C04_crlf_module_partial (d : DocC) (sp rest : Str) (hl : d.leader = true
   ⟨C01_module_doc d sp rest hl hcr hi ho hsp hr hn,
    C01_module_doc_crlf { d with crlf := true } sp rest hl rfl hi ho hsp hr hn⟩
 
+/-! ## non-vacuity
+
+`exA`:
+```
+#[[[
+# Doc of f
+# :param x: it
+#]]
+function(f x)
+  option(O "help")
+endfunction()
+```
+`exB`: the same module with a byte-order mark, a CRLF-terminated line comment and a blank line in front, the
+doccomment block re-indented by a tab and a space, a bracket comment between the doccomment and its command,
+command names in other letter cases, blanks before `(`, a line comment and a line break inside an argument list,
+a bracket comment between arguments, CRLF line breaks before `)`, no line end at the end of the file. -/
+
+namespace C04
+
+def docA : DocC :=
+  { pre := [], ind := [], openSuffix := [], lines := [lit "Doc of f", lit ":param x: it"], leader := true, crlf := false }
+
+def docB : DocC :=
+  { docA with pre := [.lineComment (lit " leading comment") (some true), .nl false], ind := lit "\t " }
+
+def exA : Module :=
+  { bom := false, modDoc := none, tail := [.nl false],
+    items := [
+      .block (some docA)
+        { pre := [.nl false], name := lit "function", sp := 0, close := [],
+          args := [.tok [] (.bare (lit "f")), .tok [.spaces 1] (.bare (lit "x"))] }
+        [ .cmd none
+            { pre := [.nl false, .spaces 2], name := lit "option", sp := 0, close := [],
+              args := [.tok [] (.bare (lit "O")), .tok [.spaces 1] (.quoted (lit "help"))] } ]
+        { pre := [.nl false], name := lit "endfunction", sp := 0, args := [], close := [] } ] }
+
+def exB : Module :=
+  { bom := true, modDoc := none, tail := [],
+    items := [
+      .block (some docB)
+        { pre := [.nl true, .bracketComment 1 (lit " between doc and command "), .nl false, .tabs 1],
+          name := lit "FUNCTION", sp := 2, close := [.spaces 1],
+          args := [.tok [.spaces 1] (.bare (lit "f")),
+                   .tok [.spaces 2, .lineComment (lit " c") (some false), .spaces 3] (.bare (lit "x"))] }
+        [ .cmd none
+            { pre := [.nl false, .nl false], name := lit "Option", sp := 0, close := [.nl true],
+              args := [.tok [] (.bare (lit "O")),
+                       .tok [.spaces 1, .bracketComment 0 (lit " b "), .spaces 1] (.quoted (lit "help"))] } ]
+        { pre := [.nl true, .lineComment (lit " done") (some true)], name := lit "EndFunction", sp := 1, args := [],
+          close := [.spaces 1] } ] }
+
+
+theorem exA_valid : exA.valid = true := by
+  simp only [exA, docA, String.reduceToList, lit]
+  decide
+
+theorem exB_valid : exB.valid = true := by
+  simp only [exB, docB, docA, String.reduceToList, lit]
+  decide
+
+theorem docA_canonical : docA.Canonical := by
+  refine ⟨rfl, rfl, rfl, ?_, ?_⟩
+  · intro c h; simp [docA] at h
+  · intro t h
+    simp only [docA, String.reduceToList, lit, List.mem_cons, List.not_mem_nil, or_false] at h
+    rcases h with rfl | rfl <;> simp [NoNl]
+
+theorem exAB_variant : LayoutVariant exA exB := by
+  refine ⟨?_, rfl⟩
+  simp only [exA, exB, itemsRel, Item.Rel, and_true]
+  refine ⟨?_, ⟨by decide, rfl⟩, ⟨DocEquiv.refl _, by decide, rfl⟩, by decide, rfl⟩
+  exact C04_reindent_equiv docA (lit "\t ") docA_canonical (by intro c h; simp [lit] at h; rcases h with rfl | rfl <;> simp)
+
+example (hdrs : List Str) (title modName : Str) :
+    pipeline {} hdrs title modName exA.render = pipeline {} hdrs title modName exB.render :=
+  C04_layout {} hdrs title modName exA exB exA_valid exB_valid (by decide) (Or.inl rfl) exAB_variant
+
+example : exA.render ≠ exB.render := by
+  simp only [exA, exB, docA, docB, String.reduceToList, lit]
+  decide
+
+example : exA.sigToks ≠ exB.sigToks := by
+  simp only [exA, exB, docA, docB, String.reduceToList, lit]
+  decide
+
+
+/-- the block doccomment of `exA` moved to an indentation of two blanks: `C04_reindent_block` -/
+def exA2 : Module :=
+  { exA with items := [
+      .block (some (docA.reindent (lit "  ")))
+        { pre := [.nl false], name := lit "function", sp := 0, close := [],
+          args := [.tok [] (.bare (lit "f")), .tok [.spaces 1] (.bare (lit "x"))] }
+        [ .cmd none
+            { pre := [.nl false, .spaces 2], name := lit "option", sp := 0, close := [],
+              args := [.tok [] (.bare (lit "O")), .tok [.spaces 1] (.quoted (lit "help"))] } ]
+        { pre := [.nl false], name := lit "endfunction", sp := 0, args := [], close := [] } ] }
+
+theorem exA2_valid : exA2.valid = true := by
+  simp only [exA2, exA, docA, DocC.reindent, String.reduceToList, lit]
+  decide
+
+example (hdrs : List Str) (title modName : Str) :
+    pipeline {} hdrs title modName exA.render = pipeline {} hdrs title modName exA2.render :=
+  C04_reindent_block {} hdrs title modName exA exA2 [] [] docA _ _ _ (lit "  ") docA_canonical
+    (by intro c h; simp [lit] at h; simp [h]) rfl rfl rfl exA_valid exA2_valid (by decide) (Or.inl rfl)
+
+/-- same tokens, other filler: BOM, a final comment without line end -/
+def exA3 : Module := { exA with bom := true, tail := [.nl true, .tabs 1, .lineComment (lit " the end") none] }
+
+theorem exA3_valid : exA3.valid = true := by
+  simp only [exA3, exA, docA, String.reduceToList, lit]
+  decide
+
+example (cfg : Cfg) (hdrs : List Str) (title modName : Str) :
+    pipeline cfg hdrs title modName exA.render = pipeline cfg hdrs title modName exA3.render :=
+  C04_token_sequence cfg hdrs title modName exA exA3 exA_valid exA3_valid rfl
+
+/-- `exPlain` / `exRespelt` of `C02.lean` as modules: command names respelled, nothing else changed -/
+def exPlainM : Module := { bom := false, modDoc := none, items := exPlain, tail := [.nl false] }
+def exRespeltM : Module := { bom := false, modDoc := none, items := exRespelt, tail := [.nl false] }
+
+theorem exPlainM_valid : exPlainM.valid = true := by
+  simp only [exPlainM, exPlain, mkCall, String.reduceToList, List.map]
+  decide
+
+theorem exRespeltM_valid : exRespeltM.valid = true := by
+  simp only [exRespeltM, exRespelt, mkCall, String.reduceToList, List.map]
+  decide
+
+example (hdrs : List Str) (title modName : Str) :
+    pipeline {} hdrs title modName exPlainM.render = pipeline {} hdrs title modName exRespeltM.render := by
+  apply C04_case {} hdrs title modName exPlainM exRespeltM exPlainM_valid exRespeltM_valid (by decide) (Or.inl rfl) rfl
+  simp [SameUpToCase, exPlainM, exRespeltM, exPlain, exRespelt, itemsRel, Item.Rel, Call.CaseEq, Call.recase, mkCall]
+  decide
+
+/-- the cleaned text of `docA` with LF and with CRLF line ends -/
+example : String.ofList (docTextOf (some docA)) = "Doc of f\n:param x: it\n" ∧
+    String.ofList (docTextOf (some { docA with crlf := true })) = "\r\nDoc of f\r\n:param x: it\r\n" := by
+  obtain ⟨h1, h2⟩ := C04_crlf_partial docA docA_canonical
+  rw [h1, h2]
+  simp only [docA, String.reduceToList, lit]
+  decide
+
+end C04
+
 end Cminx
